@@ -109,10 +109,11 @@ void drv_c17_stream(int tier, unsigned long seed, const char *extra) {
     { static const int pb[] = {2, 4, 8, 16, 32, -16, -2, -32, -8, -4}; int b2 = pb[k % 10], ab2 = b2 < 0 ? -b2 : b2; long fl;      /* negative: upper case digits */
       priv_begin(); mpz_tdiv_r_2exp(w, v, 120); mpf_set_z(f1, w);      /* at most 120 significant bits: every digit is printed at this precision */
       if (k % 2) mpf_div_2exp(f1, f1, rnd_below(90)); else mpf_mul_2exp(f1, f1, rnd_below(90)); priv_end();
-      fp = ms_open_w(&m, -1); ret = mpf_out_str(fp, b2, 0, f1); fclose(fp); full = m.len;
+      size_t ndg = (k % 3 == 0) ? 70000 : 0;      /* 70000 requested digits: the digit buffer is a heap block (beyond the 65536-byte stack limit of TMP_ALLOC), which a failing write must still release; the text is the same, every digit of a <= 120-bit value in a power-of-two base is significant */
+      fp = ms_open_w(&m, -1); ret = mpf_out_str(fp, b2, ndg, f1); fclose(fp); full = m.len;
       for (fl = -1; fl < (long)full; fl += (fl < 0 ? 1 : 1 + (long)full / 10)) { size_t wret, rret = 0; int same = 0; mstream m2;
         fn_begin("mpf_out_inp_str"); fn_in_int("base", b2); fn_in_int("fault", fl); fn_in_int("full", full); fn_mid();
-        fp = ms_open_w(&m2, fl); wret = mpf_out_str(fp, b2, 0, f1); fclose(fp);
+        fp = ms_open_w(&m2, fl); wret = mpf_out_str(fp, b2, ndg, f1); fclose(fp);
         if (fl < 0) { FILE *fr = ms_open_r(&m, m2.buf, m2.len); priv_begin(); rret = mpf_inp_str(f2, fr, -ab2); priv_end(); fclose(fr); same = mpf_cmp(f1, f2) == 0; free(m.buf); if (!same && getenv("HX_DEBUG")) gmp_fprintf(stderr, "DBG base %d f1=%.80Fe (size %d exp %ld) f2=%.80Fe (size %d exp %ld)\n", b2, f1, (int)f1->_mp_size, (long)f1->_mp_exp, f2, (int)f2->_mp_size, (long)f2->_mp_exp); if (!same && getenv("HX_DEBUG")) { int i_; for (i_ = 0; i_ < 5; i_++) fprintf(stderr, " f1[%d]=%lx f2[%d]=%lx", i_, f1->_mp_d[i_], i_, f2->_mp_d[i_]); fprintf(stderr, "\n"); } }
         fn_out_int("wret", wret); fn_out_int("rret", rret); fn_out_int("same", same); fn_out_strn("text", (char *)m2.buf, m2.len); fn_end(); free(m2.buf); } }
     /* ---- gmp_fprintf: -1 when a write fails */
